@@ -247,7 +247,7 @@ CHECKS = {
         design="6/C11",
     ),
     "C12": dict(
-        text=("38 theorems: the pair construction is exactly the documented one (control vs every other variant in "
+        text=("41 theorems: the pair construction (GENERATED from the two comprehensions of Experiment.analyze, Gen/Pairs.lean; the model's pairs proved equal to it) is exactly the documented one (control vs every other variant in "
               "sorted order; all pairs with the smaller id as control; no duplicates; a single result iff exactly one "
               "pair, raise otherwise); the OR-merged request covers every statistic every metric declares (covariance "
               "pairs up to order) for any list of metrics; analysis_frame: the GENERATED Mean/RatioOfMeans analysis is a "
